@@ -18,6 +18,8 @@ Tokens (no spaces inside a token):
 Requests: `rr members map`, `gen members map`, `encode version map`, `decode hex`,
 `genb wmembers map`, `leader wmembers map` (the map is what `_load_topic_partitions` answers),
 `meta-enc version strs`, `meta-dec hex`, `utf8-enc string`, `utf8-dec hex`,
+`load strs replies` (replies joined by `/`, each `topic=err:ints` entries joined by `|`, empty `-`),
+`mon-load strs map`,
 `mon members map obs`, `mon-own map map`, `mon-same obs obs`.
 -/
 namespace Driver.Assign
@@ -64,6 +66,16 @@ def parseWMembers (s : String) : Option (List (Str × Bytes)) :=
   (s.splitOn ";").mapM fun e =>
     match e.splitOn ":" with
     | [id, h] => do some ((← parseStr id), (← parseHex h))
+    | _ => none
+
+def parseReply (s : String) : Option MetaReply :=
+  if s == "-" then some [] else
+  (s.splitOn "|").mapM fun e =>
+    match e.splitOn "=" with
+    | [t, v] =>
+      match v.splitOn ":" with
+      | [err, ps] => do some ((← parseStr t), ((← err.toInt?), (← parseIntList ps)))
+      | _ => none
     | _ => none
 
 def parseObs (s : String) : Option Obs :=
@@ -147,6 +159,14 @@ def step (st : Unit) (line : String) : Unit × List String :=
       | .ok t => (st, ["str " ++ showStr t])
       | .error e => (st, [showErr e])
     | none => (st, ["bad-op"])
+  | ["load", asked, rs] => match parseStrs asked, (rs.splitOn "/").mapM parseReply with
+    | some asked, some rs => match loadTopicPartitions asked rs with
+      | some (snap, n) => (st, [s!"snap {showMap snap} after {n}"])
+      | none => (st, ["pending"])
+    | _, _ => (st, ["bad-op"])
+  | ["mon-load", asked, snap] => match parseStrs asked, parseMap snap with
+    | some asked, some snap => (st, [okFail (loadCovers asked snap)])
+    | _, _ => (st, ["bad-op"])
   | ["mon", ms, tp, obs] => match parseMembers ms, parseMap tp, parseObs obs with
     | some ms, some tp, some obs =>
       (st, [s!"answers={okFail (answersAll ms obs)} once={okFail (exactlyOnce ms tp obs)} else={okFail (nothingElse ms tp obs)} sub={okFail (onlySubscribed ms obs)} bal={okFail (balanced ms obs)} wf={yesNo (wellFormed ms tp)} ident={yesNo (identicalSubs ms)}"])
